@@ -294,7 +294,7 @@ econf_err econf_mergeFiles(econf_file **merged_file, econf_file *usr_file, econf
   (*merged_file)->comment = usr_file->comment;
   (*merged_file)->path = NULL;
   struct file_entry *fe =
-      malloc((etc_file->length + usr_file->length) * sizeof(struct file_entry));
+      malloc((etc_file->length + usr_file->length + 1) * sizeof(struct file_entry));
   if (fe == NULL)
     {
       free (*merged_file);
@@ -302,18 +302,7 @@ econf_err econf_mergeFiles(econf_file **merged_file, econf_file *usr_file, econf
       return ECONF_NOMEM;
     }
 
-  size_t merge_length = 0;
-
-  if ((etc_file->file_entry == NULL ||
-       !strcmp(etc_file->file_entry->group, KEY_FILE_NULL_VALUE)) &&
-      (usr_file->file_entry == NULL ||
-       strcmp(usr_file->file_entry->group, KEY_FILE_NULL_VALUE))) {
-    merge_length = insert_nogroup(*merged_file, &fe, etc_file);
-  }
-  merge_length = merge_existing_groups(*merged_file,&fe, usr_file,
-				       etc_file, merge_length);
-  merge_length = add_new_groups(*merged_file, &fe, usr_file,
-				etc_file, merge_length);
+  size_t merge_length = merge_entries(*merged_file, fe, usr_file, etc_file);
   (*merged_file)->length = merge_length;
   (*merged_file)->alloc_length = merge_length;
 
